@@ -19,11 +19,24 @@ def opt_tag(spec):
     return spec["opt"] + (f"|population={pop}" if pop is not None else "")
 
 
+RAISE_OWNERS = ("C03", "C15")
+SKIPPED_RAISES = []
+
+
 def raise_failures(pid, out):
-    """an exception escaping search() is a failing input for every driver-level property (signature = site)"""
+    """an exception escaping search() is a failing input of C03 ("completes without raising") and C15 (non-finite
+    scores); the other driver-level checks do not claim it - they skip the run and count it"""
     fails = []
+    if pid not in RAISE_OWNERS:
+        for r in out["real"]["records"]:
+            if r["exc"] is not None:
+                SKIPPED_RAISES.append(f"{opt_tag(out['real']['spec'])}: {type(r['exc']).__name__}")
+        return fails
     spec = out["real"]["spec"]
     for r in out["real"]["records"]:
+        if r["exc"] is not None and type(r["exc"]).__name__ == "StepTimeout":
+            SKIPPED_RAISES.append(f"{opt_tag(spec)}: watchdog (C08)")
+            continue
         if r["exc"] is not None:
             fails.append(dict(signature=f"{pid}|{opt_tag(spec)}|raises {type(r['exc']).__name__}@{exc_site(r['exc'])}",
                               detail=f"search raised {type(r['exc']).__name__}: {r['exc']}", case=spec))
